@@ -40,8 +40,8 @@ RULE = ("a case = one (definition, form, operation, input): definitions are rand
         "wrong arity); distinct = distinct (definition shape, call shape / operation); non-trivial = the definition has "
         "bits, a nested field, a default or a hook, or the call mixes positional and keyword arguments")
 TRUSTED_BASE = [
-    "tools/gen_c20.py: introspection of the live Serializer registry and VariablePayload subclasses; AST translation of "
-    "type_map's literal `if t is X: return \"fmt\"` table",
+    "tools/gen_c20.py: introspection of the live Serializer registry and VariablePayload subclasses; type_map as a finite "
+    "table read off the live function; AST of DataClassPayload.__new__ (is convert_to_payload called unconditionally)",
     "Ipv8/C20/Model.lean `pyBind`: hand model of CPython's argument binding for def f(self, p.., p=d.., **kw); the "
     "evaluator for the generated code trees; both tied to CPython by the correspondence run",
     "harness/c20.py: the parser that turns the source text emitted by _compile_init/_compile_from_unpack_list/"
@@ -50,18 +50,26 @@ TRUSTED_BASE = [
     "instance by re-packing a stub that returns the same pack list)",
 ]
 ASSUMPTIONS = [
-    "well-formed definitions: distinct field names that are identifiers outside the reserved set (self, cls, Payload, "
-    "None, keywords, names of VariablePayload attributes), len(names) = sum of slots (8 for bits, else 1)",
-    "the user __init__ (if any) has exactly the field names as parameters, in order, and forwards them unchanged",
-    "defaults: eval(repr(d)) == d (the textual splice denotes the same value); checked per generated default",
+    "well-formed definitions: distinct field names that are Python identifiers outside the reserved set (self, cls, "
+    "Payload, defaults, keywords, names of VariablePayload attributes, the fix_pack_*/fix_unpack_* hook namespace); "
+    "len(names) = sum of slots (8 for bits, else 1) - VariablePayload's docstring: names are the field names for the "
+    "given formats",
+    "the user __init__ (if any) has exactly the field names as parameters, in order, and forwards them unchanged; an "
+    "old-style superclass __init__ stores each argument under its own name: vp_compile regenerates __init__ from names "
+    "and signature defaults by design, constructor BODIES are not part of a definition as the property lists it",
+    "hooks are class-level functions defined before vp_compile runs (the interpreted form looks them up on the instance "
+    "at call time, the compiled form on the class at compile time)",
     "values handed to from_unpack_list by the Serializer are never None (the compiled form guards hooks with "
     "`None if x is None`); the guard itself is modelled and exercised",
     "keyword arguments have distinct keys (Python dict)",
-    "old-style (non VariablePayload) superclasses with their own __init__ are outside the model",
+    "dataclass fields are plain (no default_factory / kw_only / init=False / InitVar): those are reported as a known "
+    "finding, not assumed away",
 ]
 
 RESERVED = set(keyword.kwlist) | {"self", "cls", "Payload", "None", "True", "False", "names", "format_list", "msg_id",
-                                  "to_pack_list", "from_unpack_list", "args", "kwargs"}
+                                  "to_pack_list", "from_unpack_list", "args", "kwargs", "defaults"}
+# also reserved: anything starting with fix_pack_ / fix_unpack_ (the hook namespace), non-identifiers
+NAME_POOL_NOTE = "no pool name starts with fix_pack_/fix_unpack_; 'fix' and 'fix_pack' themselves are allowed"
 NAME_POOL = ["a", "b", "c", "d", "e", "f", "g", "h", "k", "m", "n", "p", "q", "r", "s", "t", "u", "w", "x", "y", "z",
              "alpha", "beta", "key", "value", "data", "flag", "ident", "port", "host", "_x", "x1", "x_2", "Name",
              "circuit_id", "identifier", "info_hash", "fix", "fix_pack", "packer", "index", "out"]
@@ -201,7 +209,23 @@ def _unwrap(v):
     return (v,)
 
 
-HOOKS = {"int": (_inc, _dec), "bytes": (_unhex, _hex), "str": (_rev, _rev), "bool": (_neg, _neg), "other": (_wrap, _unwrap)}
+def _ident(v):
+    return v
+
+
+class Opaque:
+    """a default value whose repr is not a Python expression"""
+
+    def __init__(self, k):
+        self.k = k
+
+    def __repr__(self):
+        return f"<Opaque {self.k}>"
+
+
+OPAQUES = [Opaque(i) for i in range(3)]
+
+HOOKS = {"tuple": (_ident, tuple), "set": (_ident, set), "int": (_inc, _dec), "bytes": (_unhex, _hex), "str": (_rev, _rev), "bool": (_neg, _neg), "other": (_wrap, _unwrap)}
 
 NATIVE = {"?": "bool", "q": "int", "d": "float", "varlenH": "bytes", "varlenHutf8": "str",
           "arrayH-?": "co:bool", "arrayH-q": "co:int", "arrayH-d": "co:float"}
@@ -211,10 +235,12 @@ SPEC_TYPE_FORMAT = {"bool": "?", "int": "q", "float": "d", "bytes": "varlenH", "
 
 
 class Field:
-    __slots__ = ("kind", "fmt", "sub", "names", "ty")
+    __slots__ = ("kind", "fmt", "sub", "names", "ty", "ck", "ann")
 
-    def __init__(self, kind, fmt, sub, names, ty):
+    def __init__(self, kind, fmt, sub, names, ty, ck="list", ann="plain"):
         self.kind, self.fmt, self.sub, self.names, self.ty = kind, fmt, sub, names, ty
+        self.ck = ck        # container the dataclass annotation names: list | tuple | set
+        self.ann = ann      # how the annotation is written: plain | ellipsis (tuple[T, ...]) | pair (tuple[T, str]) | literal ([Cls])
 
 
 class Defn:
@@ -229,6 +255,7 @@ class Defn:
         self.fu: dict = {}
         self.uid = 0
         self.super_n = 0                # the first super_n names go to an old-style superclass __init__
+        self.derived: set = set()       # unpack hooks that the dataclass form must derive from the annotation itself
         self.nform: dict = {}           # form -> {field index -> form of the nested class}
         self.classes: dict = {}
         self.depth = 0
@@ -276,7 +303,13 @@ def gen_defn(rng, formats, depth=0, max_fields=12) -> Defn:
         elif c < 0.30 and depth < 2:
             sub = gen_defn(rng, formats, depth + 1, max_fields=4)
             kind = "nested" if rng.random() < 0.5 else "nlist"
-            d.fields.append(Field(kind, None, sub, [pool[pi]], ("se:" if kind == "nested" else "cs:") + f"N{sub.uid}"))
+            if kind == "nested":
+                d.fields.append(Field(kind, None, sub, [pool[pi]], f"se:N{sub.uid}"))
+            else:
+                ck, ann = rng.choice([("list", "plain"), ("list", "plain"), ("tuple", "plain"), ("tuple", "ellipsis"),
+                                      ("tuple", "pair"), ("list", "literal")])
+                ty = f"lit:N{sub.uid}" if ann == "literal" else {"list": "cs:", "tuple": "cot:se:"}[ck] + f"N{sub.uid}"
+                d.fields.append(Field(kind, None, sub, [pool[pi]], ty, ck, ann))
             pi += 1
         else:
             fmt = rng.choice(formats)
@@ -286,7 +319,12 @@ def gen_defn(rng, formats, depth=0, max_fields=12) -> Defn:
                 if rng.random() < 0.7:
                     fmt = rng.choice(["I", "H", "q", "varlenH", "varlenHutf8", "?", "20s"])
             ty = NATIVE[fmt] if fmt in NATIVE and rng.random() < 0.6 else "tv:" + fmt
-            d.fields.append(Field("prim", fmt, None, [pool[pi]], ty))
+            ck, ann = "list", "plain"
+            if ty.startswith("co:"):
+                ck, ann = rng.choice([("list", "plain"), ("tuple", "plain"), ("tuple", "ellipsis"), ("tuple", "pair"),
+                                      ("set", "plain")])
+                ty = {"list": "co:", "tuple": "cot:", "set": "cos:"}[ck] + ty[3:]
+            d.fields.append(Field("prim", fmt, None, [pool[pi]], ty, ck, ann))
             pi += 1
             has_raw |= fmt == "raw"
     d.names = [n for f in d.fields for n in f.names]
@@ -301,6 +339,12 @@ def gen_defn(rng, formats, depth=0, max_fields=12) -> Defn:
                     d.fp[n] = k
                 if rng.random() < 0.18:
                     d.fu[n] = k
+    # a tuple[...] / set[...] annotation says the field holds that container: the plain definition of such a field is the
+    # array / payload-list format plus an unpack rule restoring the container (the dataclass form has to derive it)
+    for f in d.fields:
+        if f.ck in ("tuple", "set") and f.names[0] not in d.fu:
+            d.fu[f.names[0]] = f.ck
+            d.derived.add(f.names[0])
     # user __init__ and defaults (suffix of the names)
     c = rng.random()
     if c < 0.45:
@@ -333,7 +377,10 @@ def gen_default(rng, d: Defn, name):
     c = rng.random()
     if c < 0.08:
         return None
-    if c < 0.2 and fmt_kind(f.fmt) == "other":
+    if c < 0.16:
+        return rng.choice([float("inf"), float("-inf"), float("nan"), OPAQUES[0], OPAQUES[1], OPAQUES[2], Ellipsis,
+                           frozenset({1, 2}), range(3), 1j])
+    if c < 0.28 and fmt_kind(f.fmt) == "other":
         return rng.choice(["hello", "3", 'q"uote', {"k": [1, 2.5, None]}, (1, "x", b"\x00")])
     w = gen_wire(rng, f.fmt)
     if name in d.fp and w is not None:
@@ -366,6 +413,8 @@ def namespace_for(d: Defn, form: str, with_init=True):
     for n, k in d.fp.items():
         ns["fix_pack_" + n] = _mk_hook_pack(HOOKS[k][0])
     for n, k in d.fu.items():
+        if form == "D" and n in d.derived:
+            continue        # convert_to_payload has to derive this one from the tuple[...] / set[...] annotation
         ns["fix_unpack_" + n] = _mk_hook_unpack(HOOKS[k][1])
     if with_init and d.user_init is not None:
         params = ", ".join(f"{n}=_D[{n!r}]" if n in d.defaults else n for n in d.names)
@@ -390,12 +439,16 @@ def fmt_list_for(d: Defn, form: str):
     return out
 
 
+FALLBACKS: list = []      # (outer form, nested form that could not be built): exported to the evidence counters
+
+
 def build_nested(d: Defn, form: str, i: int):
     """class of the nested definition of field i; falls back to the interpreted form when the chosen form cannot be
     created (that failure is reported when the nested definition itself is checked)"""
     try:
         return build(d.fields[i].sub, d.nform[form][i])
     except Exception:  # noqa: BLE001
+        FALLBACKS.append((form, d.nform[form][i]))
         d.nform[form][i] = "I"
         return build(d.fields[i].sub, "I")
 
@@ -407,14 +460,22 @@ def annotation_for(d: Defn, i: int, f: Field, rng_choice=0):
     from ipv8.messaging.payload_dataclass import type_from_format
     if f.kind == "nested":
         return build_nested(d, "D", i)
-    if f.kind == "nlist":
-        return [list, tuple, set][rng_choice % 3][build_nested(d, "D", i)]
     ty = f.ty
-    if ty.startswith("tv:"):
+    if f.kind == "nlist":
+        elem = build_nested(d, "D", i)
+    elif ty.startswith("tv:"):
         return type_from_format(ty[3:])
-    if ty.startswith("co:"):
-        return [list, tuple, set][rng_choice % 3][PY_TYPES[ty[3:]]]
-    return PY_TYPES[ty]
+    elif ty.startswith(("co:", "cot:", "cos:")):
+        elem = PY_TYPES[ty.split(":", 1)[1]]
+    else:
+        return PY_TYPES[ty]
+    if f.ann == "literal":
+        return [elem]
+    if f.ann == "ellipsis":
+        return tuple[elem, ...]
+    if f.ann == "pair":
+        return tuple[elem, str]
+    return {"list": list, "tuple": tuple, "set": set}[f.ck][elem]
 
 
 def old_style_base(d: Defn):
@@ -434,6 +495,15 @@ def old_style_base(d: Defn):
 
     return type(f"Old{d.uid}", (Payload,), {"format_list": list(fmts), "__init__": env["__init__"],
                                             "to_pack_list": to_pack_list, "from_unpack_list": classmethod(from_unpack_list)})
+
+
+def generated_module():
+    """convert_to_payload does setattr(sys.modules[cls.__module__], cls.__name__, cls): give it a module of its own"""
+    import types
+    name = "c20_generated_classes"
+    if name not in sys.modules:
+        sys.modules[name] = types.ModuleType(name)
+    return name
 
 
 def build(d: Defn, form: str, fresh=False):
@@ -465,7 +535,7 @@ def build(d: Defn, form: str, fresh=False):
                 else:
                     fields.append((n, ann))
             cls = dataclasses.make_dataclass(f"N{d.uid}", fields, bases=(DataClassPayload,), namespace=ns)
-            cls.__module__ = __name__
+            cls.__module__ = generated_module()
             if not fresh:
                 cls.__new__(cls)        # what the first instantiation does: convert_to_payload(cls)
     except Exception as e:
@@ -538,6 +608,8 @@ def canon(v):
         return ("inst", tuple((n, canon(getattr(v, n, "<missing>"))) for n in names))
     if isinstance(v, (list, tuple)):
         return (type(v).__name__ if type(v) in (list, tuple) else "tuple", tuple(canon(x) for x in v))
+    if isinstance(v, (set, frozenset)):
+        return (type(v).__name__, tuple(sorted((canon(x) for x in v), key=repr)))
     if isinstance(v, dict):
         return ("dict", tuple(sorted((repr(k), canon(x)) for k, x in v.items())))
     if isinstance(v, float):
@@ -564,15 +636,6 @@ def attrs_of(obj):
 # protocol lines
 
 
-def rt_class(v):
-    """does the textual splice `repr(v)` denote the same value? (the hypothesis of the defaults theorem, evaluated)"""
-    try:
-        w = eval(repr(v), {})
-    except Exception:  # noqa: BLE001
-        return "!"
-    return "same" if canon(w) == canon(v) else "other"
-
-
 def defn_tokens(d: Defn, form: str):
     if form == "D":
         items = []
@@ -592,9 +655,10 @@ def defn_tokens(d: Defn, form: str):
     dfl = []
     for j, n in enumerate(d.names):
         if n in d.defaults:
-            c = rt_class(d.defaults[n])
-            dfl.append(f"{n}=d{j}>" + {"same": f"d{j}", "!": "!", "other": f"o{j}"}[c])
-    return [fm, names, init, "[" + ",".join(dfl) + "]", "[" + ",".join(d.fp) + "]", "[" + ",".join(d.fu) + "]"]
+            # the generated __init__ binds the default OBJECTS of the signature (no text splice): same value always
+            dfl.append(f"{n}=d{j}>d{j}")
+    fu = [n for n in d.fu if not (form == "D" and n in d.derived)]
+    return [fm, names, init, "[" + ",".join(dfl) + "]", "[" + ",".join(d.fp) + "]", "[" + ",".join(fu) + "]"]
 
 
 class TermEval:
@@ -609,6 +673,8 @@ class TermEval:
             i = s.index("(")
             f, inner = s[:i], s[i + 1:-1]
             v = self.term(inner)
+            if f in ("tuple", "set"):
+                return {"tuple": tuple, "set": set}[f](v)
             n = f[3:]
             if f.startswith("fp_"):
                 return HOOKS[self.d.fp[n]][0](v)
@@ -713,8 +779,11 @@ def gen_structure(cls, d: Defn):
                 ua.append(x.id)
             elif isinstance(x, ast.IfExp):
                 n = x.test.left.id if isinstance(x.test, ast.Compare) and isinstance(x.test.left, ast.Name) else "?"
-                want = f"None if {n} is None else cls.fix_unpack_{n}({n})"
-                ua.append("G:" + n if ast.unparse(x) == want else "?" + ast.unparse(x).replace(" ", ""))
+                want = (f"None if {n} is None else cls.fix_unpack_{n}({n})",
+                        f"cls.fix_unpack_{n}({n}) if {n} is not None else None")
+                if n == "?" and isinstance(x.test, ast.Compare) and isinstance(x.test.left, ast.Name):
+                    n = x.test.left.id
+                ua.append("G:" + n if ast.unparse(x) in want else "?" + ast.unparse(x).replace(" ", ""))
             else:
                 ua.append("?" + ast.unparse(x).replace(" ", ""))
     else:
@@ -841,10 +910,34 @@ def serializer():
     return s
 
 
+def enc_default(v):
+    """a default value in a replay file (not every default has an evaluable repr)"""
+    if isinstance(v, Opaque):
+        return {"opaque": v.k}
+    if isinstance(v, float) and (v != v or v in (float("inf"), float("-inf"))):
+        return {"float": repr(v)}
+    return repr(v)
+
+
+def dec_default(x):
+    import re
+    if isinstance(x, dict) and "opaque" in x:
+        return OPAQUES[x["opaque"] % len(OPAQUES)]
+    if isinstance(x, dict) and "float" in x:
+        return float(x["float"])
+    m = re.fullmatch(r"<Opaque (\d+)>", x) if isinstance(x, str) else None
+    if m:
+        return OPAQUES[int(m.group(1)) % len(OPAQUES)]
+    if x in ("inf", "-inf", "nan"):
+        return float(x)
+    return eval(x, {"Ellipsis": Ellipsis})
+
+
 def defn_replay(d: Defn):
-    return {"fields": [{"kind": f.kind, "fmt": f.fmt, "names": f.names, "ty": f.ty,
+    return {"fields": [{"kind": f.kind, "fmt": f.fmt, "names": f.names, "ty": f.ty, "ck": f.ck, "ann": f.ann,
                         "sub": defn_replay(f.sub) if f.sub else None} for f in d.fields],
-            "user_init": d.user_init, "super_n": d.super_n, "defaults": {k: repr(v) for k, v in d.defaults.items()},
+            "user_init": d.user_init, "super_n": d.super_n, "derived": sorted(d.derived),
+            "defaults": {k: enc_default(v) for k, v in d.defaults.items()},
             "fix_pack": d.fp, "fix_unpack": d.fu, "nested_forms": {k: {str(i): v for i, v in m.items()}
                                                                    for k, m in d.nform.items()}}
 
@@ -874,6 +967,15 @@ class Run:
                 model = conv(rep)
             except Exception as e:  # noqa: BLE001
                 model = ("unparsable", f"{rep!r}: {exc_name(e)}")
+            if (isinstance(model, tuple) and isinstance(real, tuple) and model[:1] == ("err",) and real[:1] == ("err",)
+                    and model != real):
+                # both raise; WHICH exception is not part of the property (the model's kind is recorded for the reader)
+                self.ctx.count(f"corr:exception-kind-differs:model={model[1]}:impl={real[1]}")
+                continue
+            if isinstance(model, str) and isinstance(real, str) and model.startswith("err:") and real.startswith("err:") \
+                    and model != real:
+                self.ctx.count(f"corr:exception-kind-differs:model={model[4:]}:impl={real[4:]}")
+                continue
             if model != real:
                 self.ctx.disagree(f"{what}: model {str(model)[:300]} != implementation {str(real)[:300]} on `{line[:300]}`",
                                   {"line": line, "model_reply": rep, "impl": str(real)[:2000], **replay})
@@ -925,6 +1027,10 @@ class Run:
                     sig = "_compile_init:default-splice" if d.defaults else "vp_compile:class-creation"
                     ctx.oracle_fail(sig, f"vp_compile raises {r[1]} for a definition whose interpreted form works "
                                     f"(defaults {d.defaults!r})", {**rep_d, "form": form, "stage": "class-creation"})
+                if form == "D":
+                    ctx.oracle_fail("convert_to_payload:class-creation", f"converting the dataclass form raises {r[1]} "
+                                    f"(annotations {[f.ty + '/' + f.ann for f in d.fields]}) for a definition whose "
+                                    "interpreted form works", {**rep_d, "form": form, "stage": "class-creation"})
         if "D" in classes:
             # the dataclass form converts itself on first instantiation; do it now so that class-level data is set
             cd = classes["D"]
@@ -955,6 +1061,11 @@ class Run:
             gs = gen_structure(classes[form], d)
             if gs is None:
                 ctx.count("gen:text-unavailable")
+                continue
+            if "?" in gs:
+                # the emitted text has a shape this parser does not know (restyled generator): behaviour is still
+                # compared below, the structural comparison is skipped rather than reported
+                ctx.count("gen:shape-not-recognised")
                 continue
             ctx.count("gen:compared")
             line = " ".join(["gen", form] + toks[form] + ["[]", "[]"])
@@ -1155,7 +1266,7 @@ def small_scope(run: Run, max_n: int):
                                 f"{k}=k{j}" for j, (k, a) in enumerate(kw_atoms)) + "]"])
                             run.ask(line, TermEval(d, env2).attrs, real, f"small-scope constructor of form {f}",
                                     {"small_scope": {"n": n, "defaults": nd, "user_init": ui, "npos": npos, "kw": kwn}})
-                            ctx.case(("ss", n, nd, ui, f, npos, mask), True)
+                            ctx.case(("ss", n, nd, ui, f, npos, mask), bool(nd) or bool(npos and kwn))
                         ctx.count("small-scope:" + ("ok" if outs["I"][0] == "ok" else "err"))
                         run.compare_forms("__init__:binding", outs, {"small_scope": {"n": n, "defaults": nd, "user_init": ui}},
                                           {"npos": npos, "kw": kwn}, f"small-scope call npos={npos} kw={kwn}")
@@ -1498,7 +1609,7 @@ def inheritance(run: "Run", n_cases: int):
                         cur_id = override[lv]
                         ns["msg_id"] = cur_id
                     cls = dataclasses.make_dataclass(f"H{full.uid}_{lv}", fields, bases=(parent,), namespace=ns)
-                    cls.__module__ = __name__
+                    cls.__module__ = generated_module()
                     classes.append(cls)
                     ids.append(cur_id)
                     parent = cls
@@ -1529,6 +1640,7 @@ def inheritance(run: "Run", n_cases: int):
                                     f"{r[1]}; the plain definition of its flattened field list accepts the call",
                                     {**rep, "stage": "inheritance"})
             done = set(evs)
+            conv = set(done)        # classes converted so far (a decode attempt on an unconverted root converts it)
             # model: class-level data of every class in this state
             tys = "/".join("[" + ",".join(f.ty for f in full.fields[ends[lv] - cuts[lv]:ends[lv]]) + "]" for lv in range(levels))
             nms = "/".join("[" + ",".join(f.names[0] for f in full.fields[ends[lv] - cuts[lv]:ends[lv]]) + "]"
@@ -1554,7 +1666,23 @@ def inheritance(run: "Run", n_cases: int):
                     cb = ("ok", attrs_of(db[1][0]), db[1][1]) if db[0] == "ok" else ("err",)
                     ctx.count(f"inherit:decode-before-instance:{'same' if ca == cb else 'differs'}")
                     ctx.case(("inherit-decode-first", order, lv), True)
-                    if ca != cb:
+                    anc = [j for j in conv if j < lv]
+                    if not anc:
+                        conv.add(lv)    # nothing was unpacked and cls() was called: __new__ has converted this class
+                    if anc:
+                        # model (hier_decode_state): it decodes exactly like its nearest converted ancestor
+                        dj = attempt(lambda: run.ser.unpack_serializable(classes[max(anc)], bb[1]))
+                        cj = ("ok", attrs_of(dj[1][0]), dj[1][1]) if dj[0] == "ok" else ("err",)
+                        predicted = ca == cj
+                    else:
+                        dflt = tuple((x, canon(full.defaults[x])) for x in defs[lv].names if x in full.defaults)
+                        predicted = ca == ("err",) or (ca[0] == "ok" and ca[1] == dflt and len(dflt) == len(defs[lv].names))
+                    if not predicted:
+                        ctx.oracle_fail("dataclass.inherit:unconverted-class-unexpected",
+                                        f"class {lv} of a dataclass chain, never instantiated (instantiated: {sorted(done)}), decodes "
+                                        f"to {str(da if da[0] == 'err' else ca)[:160]}: neither the plain definition's result nor "
+                                        "what its nearest converted ancestor gives", {**rep, "stage": "inheritance", "class": lv})
+                    elif ca != cb:
                         ctx.oracle_fail("DataClassPayload:decode-before-first-instance",
                                         f"class {lv} of a dataclass chain, never instantiated (instantiated: {sorted(done)}), decodes "
                                         f"to {str(da if da[0] == 'err' else ca)[:160]}; the plain definition gives {str(cb)[:160]}",
@@ -1565,16 +1693,20 @@ def inheritance(run: "Run", n_cases: int):
                     against_reference(run, "dataclass.inherit", classes[lv], refs[lv], defs[lv], {**rep, "class": lv, "second_pass": True}, ids[lv])
         else:
             # ---- VariablePayload from VariablePayload ---------------------------------------------
-            full, cuts = gen_chain(rng, 2, False)
+            inherit_init = rng.random() < 0.4     # the child inherits a user __init__ with defaults from its parent
+            full, cuts = gen_chain(rng, 2, inherit_init)
             pform, cform = rng.choice([("I", "I"), ("I", "C"), ("C", "C"), ("C", "I"), ("C", "I")])
-            if pform == "C" and cform == "I" and rng.random() < 0.5:
+            if inherit_init:
+                pform, cform = rng.choice([("I", "I"), ("I", "C"), ("I", "C"), ("C", "C")])
+                cuts = [cuts[0] + cuts[1], 0]
+            elif pform == "C" and cform == "I" and rng.random() < 0.5:
                 cuts = [cuts[0] + cuts[1], 0]       # same field list: must behave like the plain definition
             ends = [cuts[0], cuts[0] + cuts[1]]
-            defs = [prefix_defn(full, e, False) for e in ends]
+            defs = [prefix_defn(full, e, inherit_init) for e in ends]
             pid = rng.choice([None, 9])
             cid = (rng.choice([pid, 10]) if pid is not None else None)
             try:
-                pns = hooks_ns(full, defs[0].names)
+                pns = namespace_for(defs[0], "I") if inherit_init else hooks_ns(full, defs[0].names)
                 pns.update({"format_list": [f.fmt for f in defs[0].fields], "names": list(defs[0].names)})
                 if pid is not None:
                     pns["msg_id"] = pid
@@ -1600,7 +1732,8 @@ def inheritance(run: "Run", n_cases: int):
             except Exception as e:  # noqa: BLE001
                 ctx.count(f"inherit:build-failed:{exc_name(e)}")
                 continue
-            ctx.count(f"inherit:variablepayload:{cform}-from-{pform}:extra={min(cuts[1], 1)}")
+            ctx.count(f"inherit:variablepayload:{cform}-from-{pform}:extra={min(cuts[1], 1)}"
+                      + (":inherited-user-init" if inherit_init and defs[0].defaults else ""))
             rep = {"vp_chain": {"definition": defn_replay(full), "cuts": cuts, "parent_form": pform, "child_form": cform,
                                 "msg_ids": [pid, cid]}}
             hybrid = pform == "C" and cform == "I" and (cuts[1] > 0 or any(n in full.fp or n in full.fu for n in defs[1].names[ends[0]:]))
@@ -1613,7 +1746,26 @@ def inheritance(run: "Run", n_cases: int):
                     bad = ctx.failures[before:]
                     del ctx.failures[before:]
                     ctx.count(f"inherit:hybrid:{'differs' if bad else 'same'}")
-                    if bad:
+                    # the known finding is EXACTLY "the child runs the parent's generated methods" (model: hybridInit):
+                    # check that, and report anything else about the hybrid under its own signature
+                    _, papi = gen_values(rng, defs[1])
+                    unexpected = None
+                    for take in (len(defs[0].names), len(defs[1].names)):
+                        argv = [papi[x] for x in defs[1].names[:take]]
+                        a, b = attempt(lambda: ccls(*argv)), attempt(lambda: pcls(*argv))
+                        ra = ("ok", attrs_of(a[1])) if a[0] == "ok" else ("err",)
+                        rb = ("ok", attrs_of(b[1])) if b[0] == "ok" else ("err",)
+                        if ra != rb:
+                            unexpected = f"child{tuple(argv)!r:.80} gives {ra!s:.120}, the parent's generated constructor {rb!s:.120}"
+                        elif a[0] == "ok":
+                            pa, pb = attempt(a[1].to_pack_list), attempt(b[1].to_pack_list)
+                            if (pa[0], len(pa[1]) if pa[0] == "ok" else 0) != (pb[0], len(pb[1]) if pb[0] == "ok" else 0):
+                                unexpected = "the child's pack list is not the parent's generated one"
+                    if unexpected:
+                        ctx.oracle_fail("vp_compile:hybrid-subclass-unexpected", "an uncompiled subclass of a compiled class "
+                                        "does not even behave like the parent's generated methods: " + unexpected,
+                                        {**rep, "stage": "inheritance"})
+                    elif bad:
                         ctx.oracle_fail(sig, "an uncompiled subclass that extends a vp_compile'd class inherits the parent's "
                                         "generated __init__/to_pack_list/from_unpack_list: " + bad[0]["what"][:200],
                                         {**rep, "stage": "inheritance"})
@@ -1621,10 +1773,63 @@ def inheritance(run: "Run", n_cases: int):
                     against_reference(run, sig, [pcls, ccls][lv], refs[lv], defs[lv], {**rep, "class": lv}, [pid, cid][lv])
             if cform == "C":
                 gs = gen_structure(ccls, defs[1])
-                if gs is not None:
+                if gs is not None and "?" not in gs:
                     run.ask(" ".join(["gen", "C"] + defn_tokens(defs[1], "C") + ["[]", "[]"]), lambda rp: rp, gs,
                             "generated code of a compiled subclass", rep)
     run.flush()
+
+
+
+def dataclass_options(run: "Run", n: int):
+    """dataclass field options the conversion does not understand: default_factory (the idiomatic default for a list
+    field) and kw_only with a required field after a defaulted one.  Reference: the plain definition with that default."""
+    from ipv8.messaging.lazy_payload import VariablePayload
+    from ipv8.messaging.payload_dataclass import DataClassPayload
+    ctx, rng = run.ctx, run.ctx.rng
+    for i in range(n):
+        kind = ["default_factory", "kw_only"][i % 2]
+        uid = next(_uid)
+        if kind == "default_factory":
+            fmt, factory = rng.choice([("arrayH-q", list), ("varlenH-list", list), ("varlenH", bytes), ("varlenHutf8", str)])
+            fields = [("a", int), ("b", {"arrayH-q": list[int], "varlenH": bytes, "varlenHutf8": str}.get(
+                fmt, __import__("ipv8.messaging.payload_dataclass", fromlist=["x"]).type_from_format(fmt)),
+                dataclasses.field(default_factory=factory))]
+            r = attempt(lambda: dataclasses.make_dataclass(f"O{uid}", fields, bases=(DataClassPayload,)))
+            ref_default = factory()
+        else:
+            fields = [("a", int, dataclasses.field(default=1)), ("b", int)]
+            fmt = "q"
+            r = attempt(lambda: dataclasses.make_dataclass(f"O{uid}", fields, bases=(DataClassPayload,), kw_only=True))
+            ref_default = None
+        if r[0] != "ok":
+            ctx.count(f"dataclass-options:{kind}:make_dataclass-{r[1]}")
+            continue
+        cls = r[1]
+        cls.__module__ = generated_module()
+        ns = {"format_list": ["q", fmt], "names": ["a", "b"]}
+        if kind == "default_factory":
+            env = {"_VP": VariablePayload, "_f": factory}
+            exec("def __init__(self, a, b=None):\n    _VP.__init__(self, a, _f() if b is None else b)\n", env)
+        else:
+            env = {"_VP": VariablePayload}
+            exec("def __init__(self, *, a=1, b):\n    _VP.__init__(self, a, b)\n", env)
+        ns["__init__"] = env["__init__"]
+        ref = type(f"OR{uid}", (VariablePayload,), ns)
+        call = (lambda c: c(5)) if kind == "default_factory" else (lambda c: c(b=7))
+        a, b = attempt(lambda: call(cls)), attempt(lambda: call(ref))
+        ra = ("ok", attrs_of(a[1])) if a[0] == "ok" else a
+        rb = ("ok", attrs_of(b[1])) if b[0] == "ok" else b
+        ctx.count(f"dataclass-options:{kind}:{ra[0] if ra[0] == 'ok' else ra[1]}")
+        ctx.case(("dataclass-options", kind, fmt), True)
+        if ra == rb:
+            continue
+        # what the model predicts for the code as it is: the factory field's default is dataclasses' "<factory>" marker
+        # (splice gives another value), the kw_only signature is not a valid positional one (compile error)
+        predicted = (kind == "kw_only" and ra[0] == "err") or \
+                    (kind == "default_factory" and ra[0] == "ok" and "factory" in repr(getattr(a[1], "b", "")).lower())
+        sig = "convert_to_payload:dataclass-field-options" if predicted else "convert_to_payload:dataclass-field-options-unexpected"
+        ctx.oracle_fail(sig, f"dataclass payload with {kind}: {str(ra)[:160]} but the plain definition with that default gives "
+                        f"{str(rb)[:160]}", {"dataclass_options": {"kind": kind, "format": fmt}, "stage": "dataclass-options"})
 
 
 # ---------------------------------------------------------------------------------------------------------------
@@ -1642,7 +1847,11 @@ def type_map_queries(run: Run):
 
     cases = {"bool": bool, "int": int, "float": float, "bytes": bytes, "str": str, "tv:varlenH": type_from_format("varlenH"),
              "tv:c20s": type_from_format("c20s"), "other": dict, "se:Nested": Nested, "cs:Nested": list[Nested],
-             "co:other": list[dict], "co:tv:I": list[type_from_format("I")], "co:co:int": list[list[int]]}
+             "co:other": list[dict], "co:tv:I": list[type_from_format("I")], "co:co:int": list[list[int]],
+             "lit:Nested": [Nested], "cot:int#ellipsis": tuple[int, ...], "cot:int#pair": tuple[int, str],
+             "cot:se:Nested#ellipsis": tuple[Nested, ...], "cot:se:Nested#pair": tuple[Nested, int],
+             "cos:float": set[float], "cot:other#pair": tuple[dict, int], "co:lit:Nested": list[[Nested]] if False else None}
+    cases = {k: v for k, v in cases.items() if v is not None}
     for e in ("bool", "int", "float", "bytes", "str"):
         for k, g in (("list", list), ("tuple", tuple), ("set", set)):
             cases[f"co:{e}#{k}"] = g[PY_TYPES[e]]
@@ -1653,6 +1862,11 @@ def type_map_queries(run: Run):
         ctx.count("type_map:" + ("ok" if r[0] == "ok" else r[1]))
         run.ask("tmap " + tok, lambda rep: rep, real, "type_map", {"annotation": key})
         ctx.case(("tmap", key), True)
+        spec_nested = {"lit:Nested": "ok l:Nested", "cs:Nested": "ok l:Nested", "cot:se:Nested": "ok l:Nested",
+                       "se:Nested": "ok c:Nested", "cot:int": "ok s:arrayH-q", "cos:float": "ok s:arrayH-d"}
+        if tok in spec_nested and real != spec_nested[tok]:
+            ctx.oracle_fail("type_map:format", f"type_map({key}) = {real}, expected {spec_nested[tok]}",
+                            {"annotation": key, "stage": "type_map"})
         if tok in SPEC_TYPE_FORMAT and real != "ok s:" + SPEC_TYPE_FORMAT[tok]:
             ctx.oracle_fail("type_map:format", f"type_map({key}) = {real}, expected {SPEC_TYPE_FORMAT[tok]}",
                             {"annotation": key, "stage": "type_map"})
@@ -1670,12 +1884,17 @@ def run_all(ctx: Ctx, n_defs: int, use_model: bool, small_n: int, per_shipped: i
     shipped(r, per_shipped)
     decode_first(r, ctx.scale(30, 300))
     inheritance(r, ctx.scale(120, 1500))
+    dataclass_options(r, ctx.scale(8, 40))
     for i in range(n_defs):
         d = gen_defn(ctx.rng, r.formats)
         checked(r, d)
         if i < 3:
             ctx.sample({"definition": defn_replay(d)})
     r.flush()
+    for outer, inner in FALLBACKS:
+        ctx.count(f"nested-form-fallback:{outer}-wanted-{inner}")
+    del FALLBACKS[:]
+    ctx.count("harness:definitions-aborted", r.aborted)
 
 
 def checked(r: Run, d: Defn, top=True):
@@ -1692,7 +1911,7 @@ def checked(r: Run, d: Defn, top=True):
         r.ctx.count(f"harness:definition-aborted:{exc_name(e)}")
         r.lines, r.checks = [], []
         r.aborted += 1
-        if r.aborted > 0.2 * max(50, r.ctx.evaluations // 40):
+        if r.aborted > 5:
             raise
 
 
@@ -1726,12 +1945,15 @@ def defn_from_replay(rec) -> Defn:
     d.uid = next(_uid)
     for f in rec["fields"]:
         sub = defn_from_replay(f["sub"]) if f.get("sub") else None
-        d.fields.append(Field(f["kind"], f["fmt"], sub, f["names"],
-                              (f["ty"][:3] + f"N{sub.uid}") if sub is not None else f["ty"]))
+        ty = f["ty"]
+        if sub is not None:
+            ty = ty[:ty.rindex(":") + 1] + f"N{sub.uid}"
+        d.fields.append(Field(f["kind"], f["fmt"], sub, f["names"], ty, f.get("ck", "list"), f.get("ann", "plain")))
     d.names = [n for f in d.fields for n in f.names]
     d.user_init = rec["user_init"]
     d.super_n = rec.get("super_n", 0)
-    d.defaults = {k: eval(v, {}) for k, v in rec["defaults"].items()}
+    d.defaults = {k: dec_default(v) for k, v in rec["defaults"].items()}
+    d.derived = set(rec.get("derived", []))
     d.fp, d.fu = rec["fix_pack"], rec["fix_unpack"]
     d.nform = {k: {int(i): v for i, v in m.items()} for k, m in rec["nested_forms"].items()}
     return d
